@@ -56,6 +56,11 @@ class Bool:
         self.d = d
 
 
+class Folded:                    # value.casefold() / .lower() / .upper() of the string under test, kept in a local
+    def __init__(self, how):
+        self.how = how
+
+
 class Part:                      # head / tail of the string under test around the first occurrence of sep
     def __init__(self, kind, sep):
         self.kind, self.sep = kind, sep
@@ -64,20 +69,37 @@ class Part:                      # head / tail of the string under test around t
 class _SelfProxy:
     """`self` in table expressions: exposes data attributes only."""
 
-    def __init__(self, ctx, decoder=False):
+    def __init__(self, ctx, decoder=False, evaluator=None):
         object.__setattr__(self, "_ctx", ctx)
         object.__setattr__(self, "_dec", decoder)
+        object.__setattr__(self, "_ev", evaluator)
 
     def __getattr__(self, name):
         ctx = object.__getattribute__(self, "_ctx")
+        ev = object.__getattribute__(self, "_ev")
+        isdec = object.__getattribute__(self, "_dec")
         if name == "grammar":
             return ctx.grammar
-        if name == "decoder" and not object.__getattribute__(self, "_dec"):
-            return _SelfProxy(ctx, decoder=True)
-        if name == "width" and not object.__getattribute__(self, "_dec"):
+        if name == "decoder" and not isdec:
+            return _SelfProxy(ctx, decoder=True, evaluator=ev)
+        if name == "width" and not isdec:
             return ctx.width
-        if name in ctx.options and not name.startswith("$"):
+        if name in ctx.options and not name.startswith("$") and not isdec:
             return ctx.options[name]
+        # a data attribute the constructor builds from the tables: self.X = <table expression> in __init__
+        if ev is not None and not name.startswith("__"):
+            cls = ctx.decoder_cls if (isdec or ev.cls in ctx.repo.subclasses("PVLDecoder")) else ev.cls
+            for c in ctx.repo.mro(cls):
+                if c.startswith("ext:"):
+                    continue
+                init = ctx.repo.classes[c].methods.get("__init__")
+                if init is None:
+                    continue
+                for n in ast.walk(init):
+                    if isinstance(n, ast.Assign) and len(n.targets) == 1 and ast.unparse(n.targets[0]) == f"self.{name}" \
+                            and not isinstance(n.value, ast.Name):
+                        sub = Eval(ctx, cls, c, {})
+                        return sub.conc(n.value)
         raise AttributeError(name)
 
 
@@ -176,7 +198,7 @@ class Eval:
                 raise Unsupported("conc " + ast.unparse(e)[:60])
         import itertools
         ns = {k: v.v for k, v in self.env.items() if isinstance(v, Conc)}
-        ns["self"] = _SelfProxy(self.ctx)
+        ns["self"] = _SelfProxy(self.ctx, evaluator=self)
         ns["chain"] = itertools.chain
         safe = {"set": set, "list": list, "tuple": tuple, "frozenset": frozenset, "sorted": sorted, "dict": dict,
                 "len": len, "str": str, "min": min, "max": max, "any": any, "all": all, "reversed": reversed,
@@ -199,7 +221,7 @@ class Eval:
 
     def mentions_str(self, e):
         for n in ast.walk(e):
-            if isinstance(n, ast.Name) and isinstance(self.env.get(n.id), (Str, Match, Part)):
+            if isinstance(n, ast.Name) and isinstance(self.env.get(n.id), (Str, Match, Part, Folded)):
                 return True
         return False
 
@@ -300,6 +322,14 @@ class Eval:
                     else:
                         d = ~SL.length_gt(math.floor(n))
                     return reach & d
+                # folded == K.casefold() where folded = s.casefold() was stored in a local
+                for a, b in ((l, r), (r, l)):
+                    if isinstance(a, ast.Name) and isinstance(self.env.get(a.id), Folded):
+                        k = str(self.conc(b))
+                        how = self.env[a.id].how
+                        same = (k.upper() == k) if how == "upper" else (k.casefold() == k if how == "casefold" else k.lower() == k)
+                        d = anyof([k], ic=True) if same else EMPTY
+                        return reach & (d if isinstance(op, ast.Eq) else ~d)
                 # s.casefold() == K.casefold()   /  K.casefold() == s.casefold()
                 for a, b in ((l, r), (r, l)):
                     if isinstance(a, ast.Call) and isinstance(a.func, ast.Attribute) and a.func.attr == "casefold" and self.is_str(a.func.value):
@@ -315,6 +345,17 @@ class Eval:
                 if self.is_str(gen.iter):                        # over chars of s
                     ok = self.charset(g.elt, gen.target.id)
                     return reach & (contains_any_char(ok) if f.id == "any" else star(ok))
+                # over a concrete table: unrolled; the element is a condition on the string under test
+                if len(g.generators) == 1 and not gen.ifs:
+                    items = list(self.conc(gen.iter))
+                    acc = EMPTY if f.id == "any" else reach
+                    saved = dict(self.env)
+                    for it in items:
+                        self.bind(gen.target, it)
+                        t = self.cond(g.elt, reach)
+                        acc = (acc | t) if f.id == "any" else (acc & t)
+                    self.env = saved
+                    return acc
                 raise Unsupported("any/all " + ast.unparse(e))
             if isinstance(f, ast.Name) and f.id == "isinstance":
                 if self.is_str(e.args[0]):
@@ -328,6 +369,12 @@ class Eval:
                     return reach & union(ds)
                 if f.attr == "isprintable":
                     return reach & star(SL.chars_where(lambda c: c.isprintable()))
+                if f.attr in ("isalpha", "isdigit", "isalnum", "isspace", "isdecimal", "isnumeric", "isupper", "islower") \
+                        and not e.args and f.attr not in ("isupper", "islower"):
+                    cs = SL.chars_where(lambda c: getattr(c, f.attr)())
+                    return reach & (star(cs) - SL.EPSILON)
+                if f.attr == "isascii" and not e.args:
+                    return reach & star(SL.chars_where(lambda c: ord(c) < 128))
             if isinstance(f, ast.Attribute) and isinstance(f.value, ast.Subscript) and self.is_str(f.value.value):
                 idx = self.conc(f.value.slice)
                 cs = SL.chars_where(lambda c: getattr(c, f.attr)())
@@ -466,6 +513,10 @@ class Eval:
             if isinstance(t, ast.Name):
                 if self.is_str(v):
                     self.env[t.id] = STR
+                    return {"N": reach}
+                if isinstance(v, ast.Call) and isinstance(v.func, ast.Attribute) and not v.args and \
+                        v.func.attr in ("casefold", "lower", "upper") and self.is_str(v.func.value):
+                    self.env[t.id] = Folded(v.func.attr)
                     return {"N": reach}
                 if isinstance(v, ast.Call) and isinstance(v.func, ast.Name) and v.func.id == "Token" and self.is_str(v.args[0]):
                     kw = {k.arg: ast.unparse(k.value) for k in v.keywords}
